@@ -28,7 +28,7 @@ RELATED = {          # checks to try when the target property's own check misses
 
 
 def do_import(prop, src, rnd=None):
-    for v in 'abcdefghijklmnop':
+    for v in 'abcdefghijklmnopqrstuv':
         if not os.path.exists(os.path.join(src, v + '.diff')):
             continue
         d = os.path.join(SEEDED, '%s-%s' % (prop, v))
